@@ -32,6 +32,7 @@ tvars == <<vars, l, mon, tno>>
 Ev == Trace[l]
 IsEv(e) == l <= Len(Trace) /\ Ev.e = e
 Range(s) == {s[i] : i \in DOMAIN s}
+RawKey == "raw"
 
 Publish(o, dv) ==
   TLCSet(1, TLCGet(1) \cup {[t |-> tno, drift |-> mon, driftAt |-> 0, viol |-> o.viol, devs |-> dv]})
@@ -81,7 +82,7 @@ SnapMatches ==
        /\ (DOMAIN Ev.use[s]) \ {"_"} = tab[s]
        /\ \A k \in tab[s] : Ev.use[s][k] = (IF Cap(s) > 0 THEN sem[s][k] ELSE 0)
 
-C_Silent == /\ \E m \in Msgs : Step(m) \/ EndDst(m)
+C_Silent == /\ \E m \in Msgs : Step(m) \/ EndDst(m) \/ PipeReject(m)
             /\ UNCHANGED <<l, mon, tno>>
 
 C_Call ==
@@ -89,7 +90,12 @@ C_Call ==
   /\ CASE Ev.op = "TakeMsg"  -> CallTakeMsg(Ev.m, Ev.ip, Ev.src)
        [] Ev.op = "TakeDest" -> CallTakeDest(Ev.m, Ev.d)
        [] Ev.op = "RelDest"  -> CallRelDest(Ev.m, Ev.d)
-       [] Ev.op = "RelMsg"   -> Ev.ip = arg[Ev.m].ip /\ CallRelMsg(Ev.m, Ev.src)
+       \* the key a session releases under is not visible from outside: the one it took, or
+       \* (deviation ReleaseOtherKey) the raw spelling of the sender domain, which no
+       \* bucket is ever created for
+       [] Ev.op = "RelMsg"   -> /\ Ev.ip = arg[Ev.m].ip
+                                /\ \/ CallRelMsg(Ev.m, Ev.src)
+                                   \/ Endp /\ D("ReleaseOtherKey") /\ Ev.raw /\ CallRelMsg(Ev.m, RawKey)
        [] Ev.op = "End"      -> CallEnd(Ev.m)
        [] OTHER -> FALSE
 
